@@ -427,7 +427,7 @@ func c27Collapse(seq string) string {
 	return string(out)
 }
 
-func (s *c27State) check(collapse bool, report func(key, desc string)) {
+func (s *c27State) check(collapse, skipImplied bool, report func(key, desc string)) {
 	var all, latest []*common.Node
 	if p := verifmc.Catch(func() {
 		all = s.L.Store.ReadAllNodes(^uint64(0), true)
@@ -466,6 +466,9 @@ func (s *c27State) check(collapse bool, report func(key, desc string)) {
 		report("latest-state-not-reported", fmt.Sprintf("ReadAllNodes(inf,false) = [%s], latest record per signer of the reference = [%s]", s.A.render(c27Sort(c27FromNodes(latest)), true), s.A.render(c27Sort(w), true)))
 	}
 
+	if skipImplied {
+		return
+	}
 	// invariants on what the store itself reports
 	pledging := 0
 	for _, n := range latest {
@@ -607,6 +610,11 @@ func (s *c27State) apply(e int, replaying bool, report func(key, desc string)) (
 	p := verifmc.Catch(func() { _, err = store.VerifFinalize(s.chain(), ts, false, tx) })
 	accepted = p == nil && err == nil
 	op := c27OpNames[ev.Op]
+	// implied: a forbidden beyond-lookahead record was just reported under its
+	// own key; the broken one-pledging / lifecycle invariants of the resulting
+	// record set are its direct consequence and are not reported a second time
+	// under further keys (the comparison with the reference still is)
+	implied := false
 
 	if accepted {
 		s.Hist = append(s.Hist, c27Rec{Ts: ts, Signer: signer, Payee: payee, State: c27OpState[ev.Op], Tx: hash})
@@ -625,9 +633,12 @@ func (s *c27State) apply(e int, replaying bool, report func(key, desc string)) (
 				s.N.oooAccepted[ev.Op].Add(1)
 			}
 			if !allowed {
-				k := "accepted-" + op + ":" + why
-				if !flags.Beyond {
-					k += order
+				k := "accepted-" + op + ":" + why + order
+				if flags.Beyond {
+					// one small, stable class per operation: the reason without
+					// the state the node is really in (the wrapper adds the suffix)
+					k = "accepted-" + op + ":" + strings.SplitN(why, "-but-", 2)[0]
+					implied = true
 				}
 				report(k, fmt.Sprintf("%s was recorded although the statement forbids it (%s); history before: [%s]", s.A.name(e), why, s.A.render(c27Sort(s.Hist[:len(s.Hist)-1]), false)))
 			}
@@ -660,7 +671,7 @@ func (s *c27State) apply(e int, replaying bool, report func(key, desc string)) (
 		}
 	}
 	if !replaying {
-		s.check(flags.Beyond, report)
+		s.check(flags.Beyond, implied, report)
 	}
 	return true, accepted
 }
@@ -854,7 +865,7 @@ func TestMC_C27(t *testing.T) {
 	defer c.Finish()
 	a := c27NewAlphabet()
 	n := &c27Counters{}
-	c.SetRule("BFS over all sequences of node operations {pledge, accept, cancel, remove}(signer, payee)@ts with signer in a pool of 3 new keys, payee in a pool of 2 (so accept/cancel/remove carry keys that match or do not match the record), plus remove (matching / mismatching payee) and re-pledge of one genesis node; ts in {t, t+1, t+12h, t+12h+2}, NOT monotone: an event may be stamped before, at (equal timestamps across signers are forced) or after the newest record — inside the 12h look-ahead of the write functions (ts+12h >= newest, boundary t vs t+12h included) or beyond it (t and t+1 vs t+12h+2: the write functions do not read the newest records) — provided it is stamped after the record it acts upon (remove: the signer's ACCEPTED record, accept/cancel: its PLEDGING record, otherwise the signer's first record) and does not reuse a timestamp of its own signer; so e.g. a second remove is offered between a node's accept and its first remove, and an accept/cancel between a pledge and its accept/cancel. Violations of events stamped beyond the look-ahead carry the key suffix :beyond-lookahead (lifecycle strings with runs collapsed, ARR -> AR+). A state in which the oracle failed is reported and not expanded. The reference (latest record per signer by timestamp + the statement's rules) and all invariants are evaluated on the SET of records, independent of arrival order. Every event is a real node transaction (output type + Extra = signer||payee) finalized by LockInputs(fork) + WriteTransaction + WriteSnapshot without Validate, so valid and invalid operations reach writeNodePledge/Accept/Cancel/Remove through the real writeUTXO dispatch; it spends the output the operation names when that exists and is unspent (pledge output for accept/cancel, accept output for remove), otherwise a 13439 XIN wallet output from a custodian-signed deposit. Canonical state = the durable history (ts, signer, payee, state), identified with the shortest history of accepted events; successors are computed on instances that replayed that history; a rejected event must leave the NODESTATEQUEUE dump unchanged (checked), is a self-loop, and the same instance then tries the next event, a new instance is built after every accepted event; every violation is re-run 5x on a fresh instance with history+event only. Reference model = list of records + the statement's rules; oracle evaluated after every event")
+	c.SetRule("BFS over all sequences of node operations {pledge, accept, cancel, remove}(signer, payee)@ts with signer in a pool of 3 new keys, payee in a pool of 2 (so accept/cancel/remove carry keys that match or do not match the record), plus remove (matching / mismatching payee) and re-pledge of one genesis node; ts in {t, t+1, t+12h, t+12h+2}, NOT monotone: an event may be stamped before, at (equal timestamps across signers are forced) or after the newest record — inside the 12h look-ahead of the write functions (ts+12h >= newest, boundary t vs t+12h included) or beyond it (t and t+1 vs t+12h+2: the write functions do not read the newest records) — provided it is stamped after the record it acts upon (remove: the signer's ACCEPTED record, accept/cancel: its PLEDGING record, otherwise the signer's first record) and does not reuse a timestamp of its own signer; so e.g. a second remove is offered between a node's accept and its first remove, and an accept/cancel between a pledge and its accept/cancel. Violations of events stamped beyond the look-ahead have their own keys: accepted-<op>:<reason without the node's real state>:beyond-lookahead, after which the implied one-pledging / lifecycle failures of that record set are not reported again (any other failure carries the suffix too, lifecycle strings with runs collapsed). A state in which the oracle failed is reported and not expanded. The reference (latest record per signer by timestamp + the statement's rules) and all invariants are evaluated on the SET of records, independent of arrival order. Every event is a real node transaction (output type + Extra = signer||payee) finalized by LockInputs(fork) + WriteTransaction + WriteSnapshot without Validate, so valid and invalid operations reach writeNodePledge/Accept/Cancel/Remove through the real writeUTXO dispatch; it spends the output the operation names when that exists and is unspent (pledge output for accept/cancel, accept output for remove), otherwise a 13439 XIN wallet output from a custodian-signed deposit. Canonical state = the durable history (ts, signer, payee, state), identified with the shortest history of accepted events; successors are computed on instances that replayed that history; a rejected event must leave the NODESTATEQUEUE dump unchanged (checked), is a self-loop, and the same instance then tries the next event, a new instance is built after every accepted event; every violation is re-run 5x on a fresh instance with history+event only. Reference model = list of records + the statement's rules; oracle evaluated after every event")
 	c.Assume(
 		"storage layer only: common.Validate (validateNode*) and the kernel's validateNode*Snapshot are not called; the full layer of DESIGN.md C27 (same events through validation, timestamps going backwards or leaving the hour windows) is out of scope of this check",
 		"an operation is stamped after the record it acts upon (the transaction it spends is finalized earlier) and never reuses a timestamp of its own signer (the record key is (timestamp, signer); the kernel layer never produces an overwrite)",
@@ -881,7 +892,7 @@ func TestMC_C27(t *testing.T) {
 	func() {
 		s := c27New(a, c, n)
 		defer s.L.Close()
-		s.check(false, func(key, desc string) { c.Violation("genesis:"+key, desc, map[string]any{"history": []string{}}) })
+		s.check(false, false, func(key, desc string) { c.Violation("genesis:"+key, desc, map[string]any{"history": []string{}}) })
 		for _, name := range []string{"pledge(S0,P0)@t", "accept(S0,P0)@t+1", "remove(S0,P0)@t+12h", "pledge(S1,P1)@t+12h", "cancel(S1,P1)@t+12h+2", "remove(G,PG)@t+12h+2"} {
 			enabled, accepted := s.apply(a.find(name), false, func(key, desc string) {
 				c.Violation(key, desc, map[string]any{"history": "canonical", "event": name})
